@@ -450,7 +450,7 @@ func (vc *VC) loadFacts(n string, t types.Type, a *addr) {
 	if a != nil && a.kind == "field" && vc.C.NonNil[a.key[2:]] {
 		nonnil = true
 	}
-	if a != nil && a.kind == "elem" && vc.C.NonNil["elem:"+a.key[2:]] {
+	if a != nil && a.kind == "elem" && vc.C.NonNil["elem:"+a.key[2:]] && !(vc.inDecoder() && strings.Contains(a.key, "github.com/go-task/task/")) {
 		nonnil = true
 	}
 	vc.typeFacts(n, t, nonnil)
@@ -1506,4 +1506,15 @@ func (vc *VC) havocSharedLocals(at ssa.Instruction) {
 		}
 		vc.Abstract["a local written by an escaping closure is unknown after every call made while the closure may run"]++
 	}
+}
+
+// inDecoder: the function is a YAML decoder (or a closure of one). The decoders are the PRODUCERS of the declared
+// "no nil element" invariant of the decoded lists: what yaml put into a list is not assumed to satisfy it there.
+func (vc *VC) inDecoder() bool {
+	for f := vc.fn; f != nil; f = f.Parent() {
+		if f.Name() == "UnmarshalYAML" {
+			return true
+		}
+	}
+	return false
 }
